@@ -239,13 +239,6 @@ func deserializeCompiledModule(wazeroVersion string, reader io.ReadCloser) (cm *
 			return nil, false, err
 		}
 
-		expected := crc32.Checksum(executable, crc)
-		if _, err = io.ReadFull(reader, eightBytes[:4]); err != nil {
-			return nil, false, fmt.Errorf("compilationcache: could not read checksum: %v", err)
-		} else if checksum := binary.LittleEndian.Uint32(eightBytes[:4]); expected != checksum {
-			return nil, false, fmt.Errorf("compilationcache: checksum mismatch (expected %d, got %d)", expected, checksum)
-		}
-
 		if runtime.GOARCH == "arm64" {
 			// On arm64, we cannot give all of rwx at the same time, so we change it to exec.
 			if err = platform.MprotectRX(executable); err != nil {
@@ -253,6 +246,14 @@ func deserializeCompiledModule(wazeroVersion string, reader io.ReadCloser) (cm *
 			}
 		}
 		cm.executable = executable
+	}
+
+	// The checksum is always written, also for a module without any function (empty executable).
+	expected := crc32.Checksum(cm.executable, crc)
+	if _, err = io.ReadFull(reader, eightBytes[:4]); err != nil {
+		return nil, false, fmt.Errorf("compilationcache: could not read checksum: %v", err)
+	} else if checksum := binary.LittleEndian.Uint32(eightBytes[:4]); expected != checksum {
+		return nil, false, fmt.Errorf("compilationcache: checksum mismatch (expected %d, got %d)", expected, checksum)
 	}
 
 	if _, err := io.ReadFull(reader, eightBytes[:1]); err != nil {
